@@ -84,7 +84,7 @@ CHECKS = {
         category="exploration", design="DESIGN.md §3 C02",
         technique="property-based testing: absent-keyword queries (prefix, suffix, NUL-extended, doubled, bit-flipped, case-swapped, "
                   "max-length, top/bottom of the keyword space, numeric neighbours, random) against C01's generated indexes, incl. an earlier "
-                  "index searched after the same scheme object encrypted another database; oracle = empty result and no exception",
+                  "index searched after the same scheme object encrypted another database, and two live indexes of one scheme object searched alternately; oracle = empty result and no exception",
         text="On the same generated (scheme, config, key, DB) cases as C01, up to ~20 valid keywords that are not in the database "
              "and are adversarially close to stored ones are searched, interleaved with present keywords; each must return an "
              "empty result of the scheme's result type without raising.",
